@@ -9,6 +9,16 @@ import Ajson.Proofs.Lazy
 namespace Ajson.Proofs
 open Ajson Ajson.Heap
 
+theorem lookup_isSome_iff_keys (m : ChildMap) (k : Bytes) : (m.lookup k).isSome = true ↔ k ∈ m.keys := by
+  constructor
+  · intro h
+    obtain ⟨c, hc⟩ := Option.isSome_iff_exists.mp h
+    exact List.mem_map.mpr ⟨(k, c), mem_of_lookup hc, rfl⟩
+  · intro h
+    cases hl : m.lookup k with
+    | some c => rfl
+    | none => exact absurd h (not_mem_keys_of_lookup_none m k hl)
+
 /-- everything a reader can see of one record, except the links -/
 def SameFields (r r' : NodeRec) : Prop :=
   r'.type = r.type ∧ r'.data = r.data ∧ r'.b0 = r.b0 ∧ r'.b1 = r.b1 ∧ r'.dirty = r.dirty ∧
@@ -18,7 +28,7 @@ def SameFields (r r' : NodeRec) : Prop :=
 def Iso (h h' : Heap) (b lo hi : Nat) : Nat → Nat → Nat → Prop
   | 0, _, _ => False
   | f+1, n, c => n < b ∧ lo ≤ c ∧ c < hi ∧ SameFields (h.get n) (h'.get c) ∧
-      (∀ k, ((h'.childMap c).lookup k).isSome = ((h.childMap n).lookup k).isSome) ∧
+      (h'.childMap c).keys = (h.childMap n).keys ∧
       (∀ k x, (h.childMap n).lookup k = some x → ∃ cl, c < cl ∧ (h'.childMap c).lookup k = some cl ∧ (h'.get cl).parent = some c ∧
           (h'.get cl).key = (h.get x).key ∧ (h'.get cl).index = (h.get x).index ∧ Iso h h' b lo hi f x cl)
 
@@ -98,16 +108,6 @@ theorem Iso.root_links {h h' h'' : Heap} {b lo hi : Nat} (f n c : Nat) (hroot : 
     have r1 := Iso.raise f x cl a5
     have r2 := Iso.copy_side (h'' := h'') (fun m hm1 hm2 => hsame m (Nat.lt_of_lt_of_le a0 hm1) hm2) f x cl r1
     exact Iso.widen hlo (Nat.le_refl _) f x cl r2
-
-theorem lookup_isSome_iff_keys (m : ChildMap) (k : Bytes) : (m.lookup k).isSome = true ↔ k ∈ m.keys := by
-  constructor
-  · intro h
-    obtain ⟨c, hc⟩ := Option.isSome_iff_exists.mp h
-    exact List.mem_map.mpr ⟨(k, c), mem_of_lookup hc, rfl⟩
-  · intro h
-    cases hl : m.lookup k with
-    | some c => rfl
-    | none => exact absurd h (not_mem_keys_of_lookup_none m k hl)
 
 /-- what the loop over the children has established after the prefix `done` -/
 structure FoldInv (base H : Heap) (b n : Nat) (fuel : Nat) (done : ChildMap) : Prop where
@@ -271,11 +271,7 @@ theorem cloneAux_iso : ∀ fuel : Nat, CloneIsoStmt fuel
     have fin := fold (h.childMap n) [] _ (by simp) base
     generalize (h.childMap n).foldl (cloneStep fuel h.size) (h.alloc (cloneRec (h.get n))).1 = HF at fin
     refine ⟨⟨hn, Nat.le_refl _, fin.inv.grows, fin.fields, ?_, ?_⟩, fin.links.1, fin.links.2⟩
-    · intro k
-      have e1 := lookup_isSome_iff_keys (HF.childMap h.size) k
-      have e2 := lookup_isSome_iff_keys (h.childMap n) k
-      rw [fin.keys] at e1
-      cases h1 : ((HF.childMap h.size).lookup k).isSome <;> cases h2 : ((h.childMap n).lookup k).isSome <;> simp_all
+    · exact fin.keys
     · intro k x hx
       obtain ⟨cl, a0, a1, a2, a3, a4, a5⟩ := fin.kids (k, x) (mem_of_lookup hx)
       exact ⟨cl, a0, a1, a2, a3, a4, Iso.widen (Nat.le_succ _) (Nat.le_refl _) fuel x cl a5⟩
@@ -409,7 +405,9 @@ theorem Iso.equal {h h' : Heap} {b lo hi : Nat} (hd : h'.datas = h.datas) (f n c
     simp only [ht]
     split
     · rfl
-    · have := hk k
+    · have e1 := lookup_isSome_iff_keys (h'.childMap c) k
+      have e2 := lookup_isSome_iff_keys (h.childMap n) k
+      rw [hk] at e1
       cases h1 : (h'.childMap c).lookup k <;> cases h2 : (h.childMap n).lookup k <;> simp_all [Outcome.isOk]
   · intro k x hx
     unfold Heap.getKey at hx ⊢
